@@ -12,6 +12,8 @@ func init() { runners["C04"] = runC04 }
 func runC04(cases string, res *Result) {
 	c04LongText(res)
 	c04OtherRoutes(cases, res)
+	c04AfterTemplatesThatDoNotParse(res)
+	c04TemplatesStillHeld(res)
 	readCases(cases, func(c Case) {
 		src := c.hexs("src")
 		stream := c.str("stream")
